@@ -166,7 +166,17 @@ func cmdVerify(args []string) {
 		}
 		c.discharge(solveOpts{secs: *secs, workDir: work, workers: 16})
 		nOK := 0
+		reachOK := map[string]bool{}
 		for _, o := range c.Obls {
+			if o.Kind == "reach" && o.ok() {
+				reachOK[o.Name] = true
+			}
+		}
+		for _, o := range c.Obls {
+			if o.Kind == "reach" && reachOK[o.Name] {
+				nOK++
+				continue
+			}
 			if o.ok() {
 				nOK++
 			}
